@@ -21,6 +21,89 @@ V = os.path.dirname(os.path.dirname(os.path.abspath(__file__)))
 REPO = "/repo"
 
 
+def candidates_encode(lines):
+    out = []
+    in_encode = False
+    # only functions that can actually produce a payload: one unsupported field type makes the whole function raise,
+    # so a mutation inside it is dead code
+    dead = set()
+    start = None
+    for i, ln in enumerate(lines + ["def end"]):
+        if ln.startswith("def "):
+            start = i if ln.startswith("def encode_pgn_") else None
+        elif start is not None and ("raise Exception(\"Encoding" in ln or "not supporting encoding" in ln):
+            dead.add(start)
+    cur = None
+    for i, ln in enumerate(lines):
+        if ln.startswith("def encode_pgn_"):
+            in_encode = True
+            cur = i
+        elif ln.startswith("def "):
+            in_encode = False
+        if not in_encode or cur in dead:
+            continue
+        if re.search(r"field_value = encode_number\(field\.value, \d+, (True|False), ", ln):
+            out.append((i, "enc_number"))
+        elif re.match(r"    data_raw \|= \(field_value & 0x[0-9A-F]+\) << \d+$", ln):
+            out.append((i, "enc_place"))
+        elif re.match(r"    return data_raw\.to_bytes\(\d+, ", ln):
+            out.append((i, "enc_length"))
+        elif re.search(r"int\(round\(field\.raw_value / [^)]+\)\)", ln):
+            out.append((i, "enc_timeres"))
+        elif re.search(r"encode_time\(field\.value, \d+, (True|False)\)", ln):
+            out.append((i, "enc_time"))
+    return out
+
+
+def mutate_encode(line, kind, rng):
+    if kind == "enc_number":
+        m = re.search(r"encode_number\(field\.value, (\d+), (True|False), ([^)]+)\)", line)
+        bits, signed, res = m.groups()
+        op = rng.choice(["bits+", "bits-", "signed", "res"])
+        if op == "bits+":
+            new = (str(int(bits) + 1), signed, res)
+        elif op == "bits-":
+            if int(bits) <= 2:
+                return None
+            new = (str(int(bits) - 1), signed, res)
+        elif op == "signed":
+            new = (bits, "False" if signed == "True" else "True", res)
+        else:
+            new = (bits, signed, repr(float(res) * rng.choice([10, 0.1, 2])))
+        return line[:m.start()] + "encode_number(field.value, %s, %s, %s)" % new + line[m.end():], op
+    if kind == "enc_place":
+        m = re.match(r"    data_raw \|= \(field_value & (0x[0-9A-F]+)\) << (\d+)$", line)
+        mask, sh = int(m.group(1), 16), int(m.group(2))
+        op = rng.choice(["mask_short", "mask_long", "shift+", "shift-"])
+        if op == "mask_short":
+            if mask <= 1:
+                return None
+            mask >>= 1
+        elif op == "mask_long":
+            mask = (mask << 1) | 1
+        elif op == "shift+":
+            sh += 1
+        else:
+            if sh == 0:
+                return None
+            sh -= 1
+        return "    data_raw |= (field_value & 0x%X) << %d" % (mask, sh), op
+    if kind == "enc_length":
+        m = re.match(r"(    return data_raw\.to_bytes\()(\d+)(, .*)$", line)
+        n = int(m.group(2))
+        return m.group(1) + str(n + rng.choice([1, -1]) if n > 1 else n + 1) + m.group(3), "length"
+    if kind == "enc_timeres":
+        m = re.search(r"field\.raw_value / ([^)]+)\)\)", line)
+        return line[:m.start(1)] + repr(float(m.group(1)) * rng.choice([10, 0.1, 2])) + line[m.end(1):], "timeres"
+    if kind == "enc_time":
+        m = re.search(r"encode_time\(field\.value, (\d+), (True|False)\)", line)
+        bits, signed = m.groups()
+        if rng.random() < 0.5:
+            return line[:m.start()] + "encode_time(field.value, %s, %s)" % (bits, "False" if signed == "True" else "True") + line[m.end():], "time_signed"
+        return line[:m.start()] + "encode_time(field.value, %d, %s)" % (int(bits) - 1, signed) + line[m.end():], "time_bits"
+    return None
+
+
 def candidates(lines):
     out = []
     in_decode = False
@@ -141,10 +224,12 @@ def mutate(line, kind, rng):
 
 def main():
     n, seed = int(sys.argv[1]), int(sys.argv[2])
-    checks = sys.argv[3:] or ["C01"]
+    args = sys.argv[3:]
+    encode_side = "--encode" in args
+    checks = [a for a in args if not a.startswith("--")] or (["C02", "C09"] if encode_side else ["C01"])
     rng = random.Random(seed)
     src = open(os.path.join(REPO, "nmea2000", "pgns.py")).read().split("\n")
-    cands = candidates(src)
+    cands = candidates_encode(src) if encode_side else candidates(src)
     by_kind = {}
     for i, k in cands:
         by_kind.setdefault(k, []).append(i)
@@ -155,7 +240,7 @@ def main():
     while done < n:
         kind = rng.choice(kinds)
         i = rng.choice(by_kind[kind])
-        r = mutate(src[i], kind, rng)
+        r = (mutate_encode if encode_side else mutate)(src[i], kind, rng)
         if not r:
             continue
         new_line, op = r
